@@ -6,7 +6,7 @@ from .. import proofgate, composer, protocol
 
 THEOREMS = ["C05_row_evaluator_exact", "C05_roots_all_zero", "C05_components_imply_combined",
             "C05_combined_implies_components", "C05_grand_product_closes", "C05_vanishing_iff_divisible", "C05_degree_test",
-            "C05_numerator_zero_on_domain", "C05_perm_closing_iff", "C05_blinded_at_domain", "C05_copies_from_closing"]
+            "C05_numerator_zero_on_domain", "C05_perm_closing_iff", "C05_blinded_at_domain", "C05_copies_from_closing", "C05_sigma_rotates_classes", "C05_copy_constraints_meaning", "C05_satisfied_and_classes_constant_numerator_zero"]
 
 def expected_outcome(snapA, snapB):
     """model-side verdict: (kind, detail). Rows are A's selectors evaluated on
